@@ -14,7 +14,52 @@ use crate::common::*;
 
 fn name(r: &mut StdRng) -> Vec<u8> {
     let pool: [&[u8]; 8] = [b"\x00", b"\x01a\x00", b"\x01A\x00", b"\x03www\x01a\x00", b"\x03WWW\x01a\x00", b"\x02ns\x03www\x01a\x00", b"\x01*\x01a\x00", b"\x03wWw\x01A\x00"];
+    if r.gen_bool(0.06) {
+        // a name of 254 / 255 (maximal) / 256 (too long) octets, letters in both cases
+        let total = *[254usize, 255, 255, 256].choose(r).unwrap();
+        let mut v = Vec::new();
+        let mut left = total - 1;
+        while left > 1 {
+            let ll = (left - 1).min(*[63usize, 40, 9].choose(r).unwrap());
+            v.push(ll as u8);
+            for i in 0..ll { v.push(if i % 3 == 0 { b'K' } else { b'k' }); }
+            left -= ll + 1;
+        }
+        v.push(0);
+        return v;
+    }
     pool.choose(r).unwrap().to_vec()
+}
+
+/// Offset at which the (first) embedded name of this RDATA shape starts, if it has one.
+fn name_start(class: u16, ty: u16) -> Option<usize> {
+    match (class, ty) {
+        (_, 2) | (_, 3) | (_, 4) | (_, 5) | (_, 7) | (_, 8) | (_, 9) | (_, 12) | (3, 1) | (_, 6) | (_, 14) | (_, 250) => Some(0),
+        (_, 15) => Some(2),
+        (1, 33) => Some(6),
+        _ => None,
+    }
+}
+
+/// Replaces the tail "www.a." / "a." of the name starting at `start` by a pointer to offset 12 / 16 of the message
+/// (wherever the name lies inside the RDATA: what follows it stays).
+fn compress_name_at(rd: &[u8], start: usize) -> Option<Vec<u8>> {
+    let mut i = start;
+    loop {
+        if i >= rd.len() { return None; }
+        let rest = &rd[i..];
+        for (tail, ptr) in [(&b"\x03www\x01a\x00"[..], 12u8), (&b"\x01a\x00"[..], 16u8)] {
+            if rest.starts_with(tail) {
+                let mut v = rd[..i].to_vec();
+                v.extend_from_slice(&[0xc0, ptr]);
+                v.extend_from_slice(&rest[tail.len()..]);
+                return Some(v);
+            }
+        }
+        let l = rd[i] as usize;
+        if l == 0 || l > 63 { return None; }
+        i += 1 + l;
+    }
 }
 
 fn gen(r: &mut StdRng, class: u16, ty: u16) -> Vec<u8> {
@@ -29,8 +74,14 @@ fn gen(r: &mut StdRng, class: u16, ty: u16) -> Vec<u8> {
         (_, 15) => { let mut v = vec![0, r.gen_range(0..2)]; v.extend(name(r)); v }
         (_, 16) => { let mut v = Vec::new(); for _ in 0..r.gen_range(1..3) { let l = r.gen_range(0..4u8); v.push(l); for _ in 0..l { v.push(b'x'); } } v }
         (1, 28) => vec![7; 16],
-        (1, 33) => { let mut v = vec![0, 1, 0, 2, 0, r.gen_range(0..2)]; v.extend(name(r)); v }
-        (_, 41) => { let mut v = Vec::new(); for _ in 0..r.gen_range(0..3) { let l = r.gen_range(0..3u8); v.extend_from_slice(&[0, 10, 0, l]); for _ in 0..l { v.push(1); } } v }
+        (_, 33) => { let mut v = vec![0, 1, 0, 2, 0, r.gen_range(0..2)]; v.extend(name(r)); v }   // in classes other than IN: an unknown type that merely looks like SRV
+        (_, 41) => {
+            let mut v = Vec::new();
+            for _ in 0..r.gen_range(0..3) { let l = r.gen_range(0..3u8); v.extend_from_slice(&[0, 10, 0, l]); for _ in 0..l { v.push(1); } }
+            // an option whose OPTION-LENGTH is at the top of the 16-bit range (length + 4 does not fit 16 bits)
+            if r.gen_bool(0.1) { v.extend_from_slice(&[0, 10, 0xff, *[0xfbu8, 0xfc, 0xfd, 0xff].choose(r).unwrap()]); for _ in 0..r.gen_range(0..4) { v.push(0); } }
+            v
+        }
         (_, 250) => {
             let mut v = name(r);
             v.extend_from_slice(&[0, 0, 0, 0, 0, 1, 1, 44]);
@@ -56,8 +107,8 @@ fn gen(r: &mut StdRng, class: u16, ty: u16) -> Vec<u8> {
     v
 }
 
-pub const COMBOS: [(u16, u16); 26] = [(1, 1), (3, 1), (1, 2), (1, 3), (1, 4), (1, 5), (1, 6), (1, 7), (1, 8), (1, 9), (1, 11), (1, 12), (1, 13), (1, 14), (1, 15), (1, 16),
-    (1, 28), (1, 33), (3, 33), (1, 41), (1, 250), (1, 10), (1, 65280), (4, 2), (3, 28), (3, 6)];
+pub const COMBOS: [(u16, u16); 28] = [(1, 1), (3, 1), (1, 2), (1, 3), (1, 4), (1, 5), (1, 6), (1, 7), (1, 8), (1, 9), (1, 11), (1, 12), (1, 13), (1, 14), (1, 15), (1, 16),
+    (1, 28), (1, 33), (3, 33), (1, 41), (1, 250), (1, 10), (1, 65280), (4, 2), (3, 28), (3, 6), (4, 33), (65280, 33)];
 
 pub fn main(args: &[String]) {
     silence_panics();
@@ -77,11 +128,18 @@ pub fn main(args: &[String]) {
         let c = if r.gen_bool(0.5) { a.clone() } else if r.gen_bool(0.5) { let mut c = b.clone(); for x in c.iter_mut() { if x.is_ascii_alphabetic() && r.gen_bool(0.5) { *x ^= 0x20; } } c } else { gen(&mut r, class, ty) };
         let (ra, rb, rc): (&Rdata, &Rdata, &Rdata) = (a.as_slice().try_into().unwrap(), b.as_slice().try_into().unwrap(), c.as_slice().try_into().unwrap());
         let (cl, t) = (Class::from(class), Type::from(ty));
-        let valid = ra.validate(cl, t).is_ok();
-        let eqs = [ra.equals(ra, cl, t), ra.equals(rb, cl, t), rb.equals(ra, cl, t), rb.equals(rc, cl, t), rc.equals(rb, cl, t), ra.equals(rc, cl, t), rc.equals(ra, cl, t)];
-        let set = RdataSetOwned::from_iter(cl, t, [ra, rb, rc, ra]).unwrap();
-        let kept: Vec<Vec<u8>> = set.iter().map(|d| d.octets().to_vec()).collect();
-        out.emit(json!({"ev": "Rd", "class": class, "type": ty, "a": a, "b": b, "c": c, "valid": valid, "eqs": eqs, "kept": kept}));
+        let judged = catch_unwind(AssertUnwindSafe(|| {
+            let valid = ra.validate(cl, t).is_ok();
+            let eqs = [ra.equals(ra, cl, t), ra.equals(rb, cl, t), rb.equals(ra, cl, t), rb.equals(rc, cl, t), rc.equals(rb, cl, t), ra.equals(rc, cl, t), rc.equals(ra, cl, t)];
+            let set = RdataSetOwned::from_iter(cl, t, [ra, rb, rc, ra]).unwrap();
+            let kept: Vec<Vec<u8>> = set.iter().map(|d| d.octets().to_vec()).collect();
+            (valid, eqs, kept)
+        }));
+        let valid = match judged {
+            Ok((valid, eqs, kept)) => { out.emit(json!({"ev": "Rd", "class": class, "type": ty, "a": a, "b": b, "c": c, "valid": valid, "eqs": eqs, "kept": kept})); valid }
+            // a panic of the code under test is data
+            Err(_) => { out.emit(json!({"ev": "RdPanic", "class": class, "type": ty, "a": a, "b": b, "c": c})); false }
+        };
 
         // read from a message: prefix with names that can be pointer targets, then the rdata, possibly with a compressed name
         let mut msg: Vec<u8> = vec![0; 12];
@@ -91,6 +149,9 @@ pub fn main(args: &[String]) {
         if r.gen_bool(0.4) {
             if rd.ends_with(b"\x03www\x01a\x00") { let l = rd.len(); rd.truncate(l - 7); rd.extend_from_slice(&[0xc0, 12]); }
             else if rd.ends_with(b"\x01a\x00") { let l = rd.len(); rd.truncate(l - 3); rd.extend_from_slice(&[0xc0, 16]); }
+        } else if r.gen_bool(0.4) {
+            // a compressed name that is not at the end of the RDATA (CH A, SOA MNAME, MINFO, MX, SRV, ...)
+            if let Some(st) = name_start(class, ty) { if let Some(v) = compress_name_at(&rd, st) { rd = v; } }
         }
         msg.extend_from_slice(&rd);
         let extra = r.gen_range(0..3);
